@@ -24,7 +24,7 @@ ASCODED = "replace"
 
 CONSTS = {
     # name: (npeers, ncids, variants, maxlog, snaps, downs, installs)
-    "quick": (2, 2, '{"a","b"}', 3, 2, 2, 2),
+    "quick": (2, 2, '{"a","b"}', 3, 2, 1, 2),
     "thorough": (2, 2, '{"a","b"}', 4, 2, 2, 2),
     "thorough3": (3, 1, '{"a","b"}', 3, 2, 2, 2),
     "w_install": (2, 2, '{"a","b"}', 4, 1, 0, 1),
@@ -157,7 +157,8 @@ def witness_scripts(ctx):
 
 def tour_scripts(ctx, rng):
     out = []
-    for name, maxlen, maxt in (("tour", 16, None if not ctx.quick() else 400), ("tour2", 14, None if not ctx.quick() else 400)):
+    plan = (("tour2", 14, 500),) if ctx.quick() else (("tour", 16, None), ("tour2", 14, None))
+    for name, maxlen, maxt in plan:
         cfg = write_cfg(ctx, "x_" + name, CONSTS[name], ASCODED, "GenSpec")
         dot = os.path.join(ctx.specdir(), name + ".dot")
         r = ctx.tlc("RaftPinsetMC.tla", cfg, workers=1, timeout=1200, dump_dot=dot, count=False)
@@ -185,7 +186,7 @@ def fsm_seam(ctx, rng):
     import vcheck
     scripts = witness_scripts(ctx)
     scripts += tour_scripts(ctx, rng)
-    scripts += sim_scripts(ctx, 400 if ctx.quick() else 6000, 40)
+    scripts += sim_scripts(ctx, 300 if ctx.quick() else 6000, 40)
     inp = os.path.join(ctx.work, "c01_scripts.ndjson")
     n = 0
     with open(inp, "w") as f:
